@@ -12,6 +12,7 @@
 #include <sys/wait.h>
 #include <sys/stat.h>
 #include <sys/resource.h>
+#include <sys/time.h>
 
 /* ------------------------------------------------------------------ choice streams */
 static const uint8_t *ch_b; static size_t ch_len, ch_pos;
@@ -245,8 +246,24 @@ static void save_case(const char *path, const uint8_t *b, size_t n)
 	fclose(f);
 }
 
+/* CPU-time watchdog: a case normally needs milliseconds of CPU; one that burns many seconds is spinning.  CPU time (not
+ * wall-clock time) is measured, so load on the machine cannot trigger it. */
+static void cpu_watchdog(int sig)
+{
+	(void)sig;
+	char p[8]; strncpy(p, vz_prop, 3); p[3] = 0;
+	vz_scratch_cleanup();
+	emit("viol", p, "cpu-spin", "the case consumed its whole CPU-time budget: the library (or a callback chain it drives) spins without finishing");
+	_exit(3);
+}
 static void run_case(const uint8_t *b, size_t n)
 {
+	long cpu = vz_param_l("cpu_limit", 12);
+	if (cpu > 0) {
+		struct itimerval it = { { 0, 0 }, { cpu, 0 } };
+		signal(SIGPROF, cpu_watchdog);
+		setitimer(ITIMER_PROF, &it, NULL);
+	}
 	vz_prop = vz_param("prop", "");
 	vz_verbose = vz_param_l("verbose", 0);
 	ch_init(b, n);
@@ -363,9 +380,54 @@ static int batch(int argc, char **argv)
 	return 0;
 }
 
+/* multi <listfile>: every line is "<casefile> k=v k=v ..."; each is run in a forked child; one "MRES <line-no> <RES...>" per line */
+static int multi(const char *listfile)
+{
+	FILE *f = fopen(listfile, "r");
+	if (!f) { perror(listfile); return 2; }
+	char *line = NULL; size_t cap = 0; ssize_t l; long ln = 0;
+	signal(SIGPIPE, SIG_IGN);
+	while ((l = getline(&line, &cap, f)) > 0) {
+		while (l > 0 && (line[l - 1] == '\n' || line[l - 1] == ' ')) line[--l] = 0;
+		if (!l) { ln++; continue; }
+		int pfd[2]; if (pipe(pfd) < 0) return 2;
+		fflush(stdout);
+		pid_t pid = fork();
+		if (pid == 0) {
+			close(pfd[0]);
+			int nfd = open("/dev/null", O_WRONLY); dup2(nfd, 2);
+			if (pfd[1] != 3) { dup2(pfd[1], 3); close(pfd[1]); }
+			fcntl(3, F_SETFD, FD_CLOEXEC); res_fd = 3; dup2(nfd, 1); close(nfd);
+			setpgid(0, 0);
+			char *tok = strtok(line, " ");
+			size_t n; uint8_t *b = load_case(tok, &n);
+			while ((tok = strtok(NULL, " "))) param_set(tok);
+			alarm(vz_param_l("timeout", 30));
+			run_case(b, n);
+			_exit(0);
+		}
+		close(pfd[1]);
+		char res[4096]; size_t rl = 0; ssize_t r;
+		while ((r = read(pfd[0], res + rl, sizeof res - 1 - rl)) > 0 || (r < 0 && errno == EINTR)) { if (r > 0) rl += r; if (rl >= sizeof res - 1) break; }
+		{ char junk[4096]; while (read(pfd[0], junk, sizeof junk) > 0) ; }
+		res[rl] = 0; close(pfd[0]);
+		int st; while (waitpid(pid, &st, 0) < 0 && errno == EINTR) ;
+		kill(-pid, SIGKILL);
+		{ char sp[128]; snprintf(sp, sizeof sp, "/tmp/vfz-scratch.%d", (int)pid); struct stat sb; if (!stat(sp, &sb)) scratch_remove(sp); }
+		char *rp = strstr(res, "RES v=");
+		if (rp) { char *nl = strchr(rp, '\n'); if (nl) *nl = 0; printf("MRES %ld %s\n", ln, rp); }
+		else printf("MRES %ld RES v=%s prop=- tag=exit%d/sig%d labels=0 hash=0 nt=0 c=0,0,0,0,0,0,0,0,0,0,0,0,0,0,0,0 used=0 msg=\n", ln,
+			    (WIFSIGNALED(st) && WTERMSIG(st) == SIGALRM) ? "inc" : "crash", WIFEXITED(st) ? WEXITSTATUS(st) : -1, WIFSIGNALED(st) ? WTERMSIG(st) : 0);
+		ln++;
+	}
+	fclose(f);
+	return 0;
+}
+
 #ifndef VFZ_NO_MAIN
 int main(int argc, char **argv)
 {
+	if (argc >= 3 && !strcmp(argv[1], "multi")) return multi(argv[2]);
 	if (argc >= 3 && !strcmp(argv[1], "run")) {
 		size_t n; uint8_t *b = load_case(argv[2], &n);
 		for (int i = 3; i < argc; i++) param_set(argv[i]);
